@@ -2,11 +2,13 @@ package c10
 
 import (
 	"fmt"
+	"strings"
 	"testing"
 
 	"pgregory.net/rapid"
 
 	"verifharness/internal/evid"
+	"verifharness/internal/gen"
 )
 
 // Several workers match patterns at the same time (obiannotate --pattern,
@@ -138,6 +140,79 @@ func TestPropLongSequence(t *testing.T) {
 		evid.Eval("find_long", evid.Hash(fmt.Sprintf("%+v", c)), c.Repeats >= 100, c, "find:sequence>=5000", fmt.Sprintf("find:total_len:%d", total))
 		if err := checkLong(c); err != nil {
 			evid.Fail(rt, "find_long", c, err)
+		}
+	})
+}
+
+// ------------------------------------------------------------------ one occurrence far inside a long sequence (indels)
+
+// A single (mutated) occurrence of the pattern planted in a long background that
+// cannot match (the pattern has no 't', the background is all 't'), at positions
+// biased to powers of two minus a few symbols: any blocking / windowing of the
+// search must not lose an occurrence that straddles a block edge.
+type longIndelCase struct {
+	Pattern string
+	Budget  int
+	Occ     string
+	Pos     int
+	Total   int
+}
+
+func init() {
+	evid.Reg("indel_long", checkLongIndel)
+	evid.Tests(evid.Spec{Name: "TestPropLongIndel", Kind: "rapid", Quick: 480, Thorough: 4000, QuickShards: 8, ThoroughShards: 16})
+}
+
+func checkLongIndel(c longIndelCase) error {
+	if c.Pos < 0 || c.Pos+len(c.Occ) > c.Total {
+		return nil
+	}
+	seq := strings.Repeat("t", c.Pos) + c.Occ + strings.Repeat("t", c.Total-c.Pos-len(c.Occ))
+	ic := indelCase{Pattern: c.Pattern, Budget: c.Budget, Seq: seq, Begin: 0, Length: -1, Realign: true}
+	if err := checkIndel(ic); err != nil {
+		s := err.Error()
+		if len(s) > 1500 {
+			s = s[:600] + " … " + s[len(s)-800:]
+		}
+		return fmt.Errorf("occurrence %q planted at %d in %d x 't': %s", c.Occ, c.Pos, c.Total, s)
+	}
+	return nil
+}
+
+func TestPropLongIndel(t *testing.T) {
+	rapid.Check(t, func(rt *rapid.T) {
+		var c longIndelCase
+		n := rapid.IntRange(6, 30).Draw(rt, "patlen")
+		pat := make([]byte, n)
+		tpl := make([]byte, n)
+		for i := range pat {
+			k := rapid.IntRange(0, 9).Draw(rt, "sym")
+			pat[i] = "ACGACGMRSV"[k]
+			tpl[i] = "acgacgaacg"[k] // a base the position accepts
+		}
+		c.Pattern = string(pat)
+		c.Budget = rapid.IntRange(1, min(3, n-2)).Draw(rt, "budget")
+		edits := c.Budget // the whole budget is used half of the time
+		if rapid.Bool().Draw(rt, "fewer_edits") {
+			edits = rapid.IntRange(0, c.Budget).Draw(rt, "edits")
+		}
+		c.Occ, _ = gen.Mutate(rt, "occ", string(tpl), edits, "acg", rapid.SampledFrom([]string{"i", "i", "i", "sid", "d"}).Draw(rt, "edit_kinds"))
+		edge := rapid.SampledFrom([]int{4096, 16384, 32768, 65536, 65536, 65536, 131072}).Draw(rt, "edge")
+		c.Total = edge + rapid.IntRange(100, 70000).Draw(rt, "after")
+		switch rapid.IntRange(0, 3).Draw(rt, "near_edge") {
+		case 0, 1: // starts just before the edge: only the first symbols lie in the first block
+			c.Pos = edge - rapid.IntRange(0, c.Budget+2).Draw(rt, "just_before_edge")
+		case 2:
+			c.Pos = edge - rapid.IntRange(0, len(c.Occ)+2).Draw(rt, "before_edge")
+		default:
+			c.Pos = rapid.IntRange(0, c.Total-len(c.Occ)).Draw(rt, "pos")
+		}
+		if c.Pos < 0 {
+			c.Pos = 0
+		}
+		evid.Eval("indel_long", evid.Hash(fmt.Sprintf("%+v", c)), c.Pos+len(c.Occ) > edge && c.Pos < edge, c, "indel:long_background", fmt.Sprintf("indel:edge:%d", edge))
+		if err := checkLongIndel(c); err != nil {
+			evid.Fail(rt, "indel_long", c, err)
 		}
 	})
 }
